@@ -6,6 +6,7 @@
 #![allow(dead_code)]
 mod util;
 mod c17_json;
+mod c18_vpl;
 mod c20_cache;
 mod c15_bbox;
 mod c04_recompress;
@@ -51,6 +52,7 @@ fn main() {
 		"c15" => c15_bbox::run(&ctx),
 		"c14" => c14_stream::run(&ctx),
 		"c17" => c17_json::run(&ctx),
+		"c18" => c18_vpl::run(&ctx),
 		"c04" => c04_recompress::run(&ctx),
 		"c05" => http::run_c05(&ctx),
 		"c07" => http::run_c07(&ctx),
